@@ -16,6 +16,13 @@ logging.disable(logging.CRITICAL)
 
 UNIT = 1.0          # one model time unit
 TIMEOUT_UNITS = 2
+# how long (virtual seconds) the script waits for the context to be entered / for the POST of a
+# request it wrote, before it records that this never happened; both are several timeouts long
+ENTER_WAIT = 4 * TIMEOUT_UNITS * UNIT
+POST_WAIT = 3 * TIMEOUT_UNITS * UNIT
+# loop iterations one scripted run may take (a run needs a few thousand); beyond it the run
+# counts as hung
+MAX_ITER = 400000
 
 # server messages may talk about anything, e.g. URLs that look like message endpoints
 SRV_TEXT = "d \u00e9 https://example.com/mcp/readme.md /messages/?session_id=zzz"
@@ -127,6 +134,7 @@ def run_scripts(cases):
         state = {"rs": None, "ws": None, "tr": None, "entered": False}
         steps = [h for h in path["h"] if h["a"] in ("Announce", "SendRequest", "Event", "PostReply", "ServerMsg", "Exit")]
         srvn = [0]
+        unposted = [0]
 
         class BodyError(Exception):
             pass
@@ -140,8 +148,10 @@ def run_scripts(cases):
                         stream.feed(c)
                     ev("Announce")
                 elif a == "SendRequest":
-                    while not state["entered"]:
-                        await anyio.sleep(0.001)
+                    if not await vloop.wait_until(lambda: state["entered"], ENTER_WAIT):
+                        # entering neither returned nor raised long after the timeout: the rest
+                        # of the schedule cannot be played (the Enter clauses judge this run)
+                        return "end"
                     msg = JSONRPCRequest(jsonrpc="2.0", id=rid, method="tools/list", params={})
                     await state["ws"].send(msg if rng.random() < 0.5 else msg.model_dump(exclude_none=True))
                     ev("SendRequest")
@@ -152,10 +162,14 @@ def run_scripts(cases):
                         stream.feed(c)
                     ev("Event")
                 elif a == "PostReply":
-                    while not posts:
-                        await anyio.sleep(0.001)
-                    posts[0].set_result(h["r"])
-                    ev("PostReply", r=h["r"])
+                    if await vloop.wait_until(lambda: bool(posts), POST_WAIT):
+                        posts[0].set_result(h["r"])
+                        ev("PostReply", r=h["r"])
+                    else:
+                        # the request written on the write stream was never POSTed to the
+                        # announced endpoint: the server cannot answer it
+                        unposted[0] += 1
+                        ev("NoPost", r=h["r"])
                 elif a == "ServerMsg":
                     srvn[0] += 1
                     obj = {"jsonrpc": "2.0", "method": "notifications/message", "params": {"marker": srvn[0], "level": "info", "data": SRV_TEXT}}
@@ -204,8 +218,7 @@ def run_scripts(cases):
                         runner["res"] = await script(scope)
                         # outer cancellation is an exit path of an ENTERED context
                         if exit_path == "outerCancel" and runner["res"] == "exit":
-                            while not state["entered"]:
-                                await anyio.sleep(0.001)
+                            await vloop.wait_until(lambda: state["entered"], ENTER_WAIT)
                             scope.cancel()
 
                     try:
@@ -278,7 +291,7 @@ def run_scripts(cases):
                 intact = want is None or (d.get("result") or {}).get("t") == want
                 items.append(["own" if same else ("ownWrongType" if str(mid) == str(rid) else "other"), src, 0, same, bool(intact)])
         ev("End", read=items, tasks=max(leaked, len(asyncio.all_tasks()) - tasks_before), clients=all(c.is_closed for c in clients), streams=closed_streams,
-           expReq=path["req"], expOwn=path["own"], expSrv=path["srv"])
+           expReq=path["req"], expOwn=path["own"], expSrv=path["srv"], unposted=unposted[0])
         return {"estab": estab, "ev": evs, "idshape": idshape, "exit": exit_path}
 
     for path, seed in cases:
@@ -288,10 +301,10 @@ def run_scripts(cases):
             box.append(await one(path, seed))
 
         try:
-            vloop.run(main)
+            vloop.run(main, max_iter=MAX_ITER)
             out.append(box[0])
         except vloop.Deadlock:
             # nothing can ever happen again: leaving the context (or entering it) hangs
             out.append({"estab": path["estab"], "idshape": "n/a", "exit": "hung",
-                        "ev": [{"e": "End", "t": 0, "read": [], "tasks": 99, "clients": False, "streams": False, "expReq": path["req"], "expOwn": path["own"], "expSrv": path["srv"], "hung": True}]})
+                        "ev": [{"e": "End", "t": 0, "read": [], "tasks": 99, "clients": False, "streams": False, "expReq": path["req"], "expOwn": path["own"], "expSrv": path["srv"], "unposted": 0, "hung": True}]})
     return out
